@@ -14,6 +14,7 @@ package main
 //  (5 dspec count sum pos neg zero schema zt impl)        NewConstNativeHistogram
 //  (6 sec nsec ms same)                                   NewMetricWithTimestamp
 //  (7 vt value exs impl)                                  NewMetricWithExemplars over a const metric
+//  (9 inner-ts layers impl-ts same)                       stacks of timestamp / exemplar wrappers, custom inner metrics
 //  (8 count buckets exs impl)                             NewMetricWithExemplars over a const (native) histogram
 // dspec = (fq help vars consts lvs); impl = (0 errcode) | (1 observables...)
 
@@ -1084,6 +1085,157 @@ func streamTS(c *cli.Ctx, r *emit.Rng) error {
 	return w.Flush()
 }
 
+// ---------------------------------------------------------------- stacks of wrappers
+// a user-supplied Metric whose Write sets a timestamp of its own (mode 1) or resets the whole message and
+// fills every field itself, timestamp included (mode 2)
+type tsInner struct {
+	desc *prometheus.Desc
+	mode int
+	ts   int64
+}
+
+func (m tsInner) Desc() *prometheus.Desc { return m.desc }
+func (m tsInner) Write(pb *dto.Metric) error {
+	if m.mode == 2 {
+		pb.Reset()
+	}
+	pb.Label = []*dto.LabelPair{{Name: proto.String("a"), Value: proto.String("b")}}
+	pb.Counter = &dto.Counter{Value: proto.Float64(7)}
+	pb.TimestampMs = proto.Int64(m.ts)
+	return nil
+}
+
+func genTime(r *emit.Rng) time.Time {
+	var sec int64
+	switch r.Intn(5) {
+	case 0:
+		sec = int64(r.Intn(5)) - 2
+	case 1:
+		sec = int64(r.Intn(2_000_000_000))
+	case 2:
+		sec = -int64(r.Intn(2_000_000_000))
+	case 3:
+		sec = int64(r.U64()%8_000_000_000_000_000) - 4_000_000_000_000_000
+	default:
+		sec = 1_700_000_000 + int64(r.Intn(1000))
+	}
+	var ns int64
+	switch r.Intn(4) {
+	case 0:
+		ns = int64(r.Intn(1000))*1_000_000 + 999_999
+	case 1:
+		ns = int64(r.Intn(1000)) * 1_000_000
+	case 2:
+		ns = -int64(r.Intn(2_000_000_000))
+	default:
+		ns = int64(r.Intn(1_000_000_000))
+	}
+	return time.Unix(sec, ns)
+}
+
+// (9 inner-timestamp layers impl-timestamp same): layers = the timestamp wrappers' (Unix, Nanosecond), innermost
+// first; exemplar wrappers may sit anywhere in the stack; same = everything but the timestamp equals what the
+// stack without its timestamp wrappers writes, and the innermost metric is unchanged afterwards
+func streamNested(c *cli.Ctx, r *emit.Rng) error {
+	w := emit.NewWriter(c.Out, "C14", "timestamp-nested")
+	d := prometheus.NewDesc("t_total", "h", nil, prometheus.Labels{"a": "b"})
+	dh := prometheus.NewDesc("t_hist", "h", nil, prometheus.Labels{"a": "b"})
+	for i := 0; i < 400*c.Scale; i++ {
+		var base prometheus.Metric
+		innerTS := emit.None()
+		var tags []string
+		canEx := true
+		switch r.Intn(6) {
+		case 0:
+			base = prometheus.MustNewConstMetric(d, prometheus.CounterValue, r.AnyFloat())
+			tags = append(tags, "inner:const-counter")
+		case 1:
+			base = prometheus.MustNewConstHistogram(dh, 3, 1.5, map[float64]uint64{1: 1, 2: 3})
+			tags = append(tags, "inner:const-histogram")
+		case 2:
+			base = prometheus.MustNewConstMetric(d, prometheus.GaugeValue, r.AnyFloat())
+			canEx = false
+			tags = append(tags, "inner:const-gauge")
+		case 3:
+			g := prometheus.NewCounter(prometheus.CounterOpts{Name: "live_total", Help: "h"})
+			g.Add(float64(r.Intn(10)))
+			base = g
+			tags = append(tags, "inner:live-counter")
+			canEx = false // live counters carry a wall-clock created timestamp: keep the comparison simple
+		default:
+			ts := int64(r.Intn(2_000_000)) - 1_000_000
+			mode := 1 + r.Intn(2)
+			base = tsInner{desc: d, mode: mode, ts: ts}
+			innerTS = emit.Some(emit.Z(ts))
+			tags = append(tags, fmt.Sprintf("inner:custom-sets-timestamp-mode%d", mode))
+		}
+		depth := r.Intn(4) // number of timestamp wrappers: 0..3
+		if r.Chance(1, 2) && depth < 2 {
+			depth = 2 + r.Intn(2)
+		}
+		nEx := 0
+		if canEx {
+			nEx = r.Intn(3)
+		}
+		// layer order: 't' timestamp wrapper, 'e' exemplar wrapper, innermost first
+		order := make([]byte, 0, depth+nEx)
+		for k := 0; k < depth; k++ {
+			order = append(order, 't')
+		}
+		for k := 0; k < nEx; k++ {
+			order = append(order, 'e')
+		}
+		for k := len(order) - 1; k > 0; k-- {
+			j := r.Intn(k + 1)
+			order[k], order[j] = order[j], order[k]
+		}
+		with, without := base, base
+		var layers []string
+		var last time.Time
+		exN := 0
+		for _, o := range order {
+			if o == 't' {
+				t := genTime(r)
+				with = prometheus.NewMetricWithTimestamp(t, with)
+				layers = append(layers, emit.Pair(emit.Z(t.Unix()), emit.I(t.Nanosecond())))
+				last = t
+			} else {
+				exN++
+				ex := prometheus.Exemplar{Value: float64(exN), Labels: prometheus.Labels{"trace": fmt.Sprint(exN)}, Timestamp: time.Unix(1_700_000_000+int64(exN), 0)}
+				with = prometheus.MustNewMetricWithExemplars(with, ex)
+				without = prometheus.MustNewMetricWithExemplars(without, ex)
+			}
+		}
+		_ = last
+		var before0, got, want, after dto.Metric
+		base.Write(&before0)
+		before := proto.Clone(&before0).(*dto.Metric)
+		if e := with.Write(&got); e != nil {
+			panic(e)
+		}
+		if e := without.Write(&want); e != nil {
+			panic(e)
+		}
+		base.Write(&after)
+		ms := emit.None()
+		if got.TimestampMs != nil {
+			ms = emit.Some(emit.Z(got.GetTimestampMs()))
+		}
+		got.TimestampMs, want.TimestampMs = nil, nil
+		same := proto.Equal(&got, &want) && proto.Equal(before, &after)
+		tags = append(tags, fmt.Sprintf("timestamp-wrappers:%d", depth), fmt.Sprintf("exemplar-wrappers:%d", nEx))
+		if depth > 0 && nEx > 0 {
+			if order[len(order)-1] == 'e' {
+				tags = append(tags, "outermost:exemplars")
+			} else {
+				tags = append(tags, "outermost:timestamp")
+			}
+		}
+		w.Add(emit.Tup("9", innerTS, emit.L(layers), ms, emit.B(same)), depth >= 2 || (depth >= 1 && (nEx > 0 || innerTS != emit.None())), tags...)
+	}
+	return w.Flush()
+}
+
 // ---------------------------------------------------------------- exemplars
 type exIn struct {
 	v      float64
@@ -1417,6 +1569,9 @@ func runC14(c *cli.Ctx) error {
 		if err := runStream(c, r.Fork(), s.name, s.n, s.bad, s.gen); err != nil {
 			return err
 		}
+	}
+	if err := streamNested(c, r.Fork()); err != nil {
+		return err
 	}
 	// count = 2^64 + (negative total): validateCount compares int64(count) with the int64 total
 	if knownListed("count-wrap") {
